@@ -209,26 +209,41 @@ class Impl:
         self.m = dict(blockattributes=blockattributes, delimitedblocks=delimitedblocks, document=document,
                       lists=lists, macros=macros, options=options, quotes=quotes, replacements=replacements,
                       spans=spans)
+        self._import_state = self._snapshot()
+
+    def _snapshot(self):
+        """Import-time values of every data global of every rimu module (taken before the first render)."""
+        import copy
+        import types
+        snap = {}
+        for name, mod in list(sys.modules.items()):
+            if mod is None or not (name == 'rimu' or name.startswith('rimu.')):
+                continue
+            vals = {}
+            for k, v in vars(mod).items():
+                if k.startswith('__') or isinstance(v, (types.ModuleType, types.FunctionType, type, types.BuiltinFunctionType)):
+                    continue
+                if getattr(v, '__module__', None) == 'typing':
+                    continue
+                vals[k] = copy.deepcopy(v)
+            snap[name] = (mod, vals, set(vars(mod).keys()))
+        return snap
 
     def reset_process(self):
-        """Put the module globals back to their import-time values."""
-        m = self.m
-        m['options'].safeMode = -1
-        m['options'].callback = None
-        for attr in ('htmlReplacement',):
-            if hasattr(m['options'], attr):
-                delattr(m['options'], attr)
-        m['quotes'].defs.clear()
-        m['replacements'].defs.clear()
-        m['delimitedblocks'].defs.clear()
-        m['macros'].defs.clear()
-        ba = m['blockattributes']
-        for attr in ('classes', 'id', 'css', 'attributes', 'opts'):
-            if hasattr(ba, attr):
-                delattr(ba, attr)
-        ba.ids.clear()
-        m['lists'].ids = []
-        m['spans'].savedReplacements.clear()
+        """Put the module globals back to their import-time values (whatever the source says those are)."""
+        import copy
+        for _name, (mod, vals, keys) in self._import_state.items():
+            for k in [k for k in vars(mod) if k not in keys]:
+                delattr(mod, k)
+            for k, v in vals.items():
+                cur = getattr(mod, k, None)
+                if isinstance(v, list) and isinstance(cur, list):
+                    cur[:] = copy.deepcopy(v)       # keep the object: other modules may hold a reference
+                elif isinstance(v, dict) and isinstance(cur, dict):
+                    cur.clear()
+                    cur.update(copy.deepcopy(v))
+                else:
+                    setattr(mod, k, copy.deepcopy(v))
 
     def render(self, src, safeMode=None, htmlReplacement=None, reset=None, callback=False):
         msgs = []
